@@ -511,6 +511,14 @@ class Gen:
             else:
                 vols = [min(v, cap) for v in self.fit_seq(direction, cur, wells, lim)]
                 op["volumes"] = enc([float(v) for v in vols])
+        elif geo.trough and n >= 2 and rng.random() < 0.4:
+            # one scalar volume for n tips that all dip into the same trough cavity: each share fits, the sum does not
+            w = wells[0]
+            h = max((cur[w] - lim) if direction == "rm" else (lim - cur[w]), 0.0)
+            step = {"quarter": 0.25, "centi": 0.01}.get(self.regime, 0.01)
+            v = min(snap(h / n, self.regime) + step, cap)
+            op["volumes"] = enc(float(v))
+            op["intent"] = f"{intent}@scalar"
         else:
             k = rng.randrange(n)
             vols = [min(v, cap) for v in self.fit_seq(direction, cur, wells[:k], lim)]
